@@ -408,22 +408,17 @@ def check_accounting(ctx, ex):
                 kw = A.kwargs_of(c)
                 ok = "tot_pairs" in kw and "pairs_left" in kw and A.norm(kw["tot_pairs"]) == A.norm(kw["pairs_left"])
                 ctx.check("C12.A", f"{fname}:pairs_left-starts-at-tot_pairs", ok, f"{fname} creates its request with tot_pairs={src(kw.get('tot_pairs'))}, pairs_left={src(kw.get('pairs_left'))}", repo.loc(m, c))
-    # _store_ent_info slice
+    # _store_ent_info: executed for pair indices 0..3 (c11.exec_store_ent_info): pair k fills [k*OK_FIELDS, (k+1)*OK_FIELDS) of the request's results array
     se = ex.methods.get("_store_ent_info")
     if se is None:
         raise AnalysisError("_store_ent_info not found")
     ctx.fn("Executor._store_ent_info")
-    d = A.single_defs(se)
-    stores = [n for n in A.body_nodes(se) if isinstance(n, ast.Assign) and isinstance(n.targets[0], ast.Subscript) and "_app_arrays" in A.norm(n.targets[0])]
-    ok = False
-    got = None
-    if len(stores) == 1:
-        t = stores[0].targets[0]
-        sb = A.slice_bounds(t.slice.elts[1], d) if isinstance(t.slice, ast.Tuple) and len(t.slice.elts) == 2 else None
-        if sb is not None and sb[0] is not None and sb[1] is not None:
-            got = (A.norm(A.expand(t.slice.elts[0], d)), A.norm(A.expand(sb[0], d)), A.norm(A.expand(sb[1], d)))
-            ok = got == ("epr_cmd_data.ent_results_array_address", "pair_index*OK_FIELDS", "(pair_index+1)*OK_FIELDS")
-    ctx.check("C12.A", "_store_ent_info:pair-k-fills-slice-k", ok, f"the response is stored at {got}; expected [results array of the request, k*OK_FIELDS:(k+1)*OK_FIELDS]", repo.loc(m, se), sample={"store": got})
+    from . import c11 as _c11
+    try:
+        r_ = _c11.exec_store_ent_info(ctx)
+        ctx.check("C12.A", "_store_ent_info:pair-k-fills-slice-k", r_["slice"] is None, r_["slice"] or "", repo.loc(m, se), sample={"pairs": 4})
+    except AnalysisError as ex_:
+        ctx.error("C12.A", f"_store_ent_info cannot be executed: {ex_}")
     # virtual qubit k of the request
     gv = ex.methods.get("_get_virtual_address_from_epr_data")
     if gv is None:
